@@ -190,7 +190,15 @@ def _run_group(R, pid, g, tier, seed, scratch, infos):
         ob['checks'] = pd.get('total_properties', len(r.get('checks', [])))
         failed = [c for c in r.get('checks', []) if c.get('status') not in ('Success', 'Unreachable', 'Satisfied',
                                                                               'Covered')]
+        unsupported = [c for c in failed if 'not currently supported by Kani' in c.get('description', '')
+                       or c.get('category') == 'unsupported_construct'
+                       or 'is not supported' in c.get('description', '')]
         real_fail = [c for c in failed if c.get('status') == 'Failure' and 'unwinding assertion' not in c.get('description', '')]
+        if unsupported:
+            # a construct Kani cannot execute was reachable: everything after it is meaningless -> undecided
+            R.undecided.append(f"kani: {h['obligation']}: reachable construct unsupported by Kani "
+                               f"({[c.get('description', '')[:120] for c in unsupported[:2]]})")
+            continue
         unwind_fail = [c for c in failed if 'unwinding assertion' in c.get('description', '')]
         cover_unsat = [c for c in failed if c.get('status') in ('Unsatisfiable', 'Uncovered')]
         other = [c for c in failed if c not in real_fail and c not in unwind_fail and c not in cover_unsat]
@@ -214,6 +222,9 @@ def _run_group(R, pid, g, tier, seed, scratch, infos):
         elif unwind_fail:
             R.undecided.append(f"kani: {h['obligation']}: unwinding bound too small "
                                f"({[c.get('description') for c in unwind_fail[:3]]})")
+        elif not failed:
+            R.undecided.append(f"kani: {h['obligation']}: no verdict after {ob['time_s']} s (CBMC timed out, ran out of "
+                               f"memory or crashed; harness timeout {to} s)")
         else:
             R.undecided.append(f"kani: {h['obligation']}: status {r.get('status')} "
                                f"{[(c.get('status'), c.get('description')) for c in other[:3]]}")
@@ -252,7 +263,7 @@ def _playback(scratch, pkg, h, env):
             out['result'] = 'injected harness copy not found'
             return out
         with open(inj, 'a') as f:
-            f.write('\n#[cfg(test)]\nmod verif_playback {\n    use super::*;\n')
+            f.write(f'\n#[cfg(test)]\nmod verif_playback_{h["harness"]} {{\n    use super::*;\n')
             for b, _ in uniq[:4]:
                 f.write(b + '\n')
             f.write('}\n')
